@@ -241,10 +241,10 @@ Qed.
 
 (* the exponent-2 inner product of a discretized space, for every branch of
    is_uniformly_weighted except the recorded "unweighted skips" one *)
-Lemma discr_inner_value q blas axes (w : @lweight R) (x y : Rvec) :
+Lemma discr_inner_value q axes (w : @lweight R) (x y : Rvec) :
   Forall ax_ok axes -> length x = npoints axes ->
   (q_unweighted_skips q && negb (is_weighted (d_weight axes w (PFin 2)))) = false ->
-  leaf_inner q (LDiscr blas axes w (PFin 2)) x y
+  leaf_inner q (LDiscr axes w (PFin 2)) x y
   = Ok (t_inner_v (d_weight axes w (PFin 2)) (scale_bdry (fun f => f) axes x) y).
 Proof.
   intros Hok Hl Hq. cbn [leaf_inner]. unfold unif_weighted. rewrite Hq. cbn [isinf orb].
@@ -254,10 +254,10 @@ Qed.
 
 (* THE volume theorem: default weighting (cell volume), any number of axes, any number of points
    per axis (one-point axes included), any position of the grid inside the domain *)
-Theorem discr_one_inner q blas (axes : list (@axis R)) :
+Theorem discr_one_inner q (axes : list (@axis R)) :
   Forall ax_ok axes -> Forall ax_exact axes -> axes <> [] ->
   (q_unweighted_skips q = false \/ cell_volume axes <> 1) ->
-  leaf_inner q (LDiscr blas axes LDefault (PFin 2)) (repeat 1 (npoints axes)) (repeat 1 (npoints axes))
+  leaf_inner q (LDiscr axes LDefault (PFin 2)) (repeat 1 (npoints axes)) (repeat 1 (npoints axes))
   = Ok (extent_volume axes).
 Proof.
   intros Hok Hex Hne Hq.
@@ -349,8 +349,7 @@ Qed.
    "not is_weighted" => the boundary fractions are skipped.  uniform_discr(0, 2, 3, nodes_on_bdry=True) *)
 Definition wit_axis : @axis R := {| ax_n := 3; ax_a := 0; ax_b := 2; ax_g0 := 0; ax_g1 := 2 |}.
 Definition wit_quirks : quirks :=
-  {| q_size0_blas := true; q_size0_inf := true; q_unweighted_skips := true; q_ps2_via_inner := true;
-     q_ps_empty_raises := true; q_size0d_zero := true |}.
+  {| q_unweighted_skips := true; q_ps2_via_inner := true |}.
 Lemma wit_ok : ax_ok wit_axis.
 Proof. unfold ax_ok, wit_axis; cbn. repeat split; try lia; try lra; intros; try lra; lia. Qed.
 Lemma wit_stride : ax_stride wit_axis = 1.
@@ -364,12 +363,12 @@ Qed.
 Lemma wit_volume : cell_volume [wit_axis] = 1.
 Proof. cbn [cell_volume fold_right]. rewrite ax_side_ge2 by (try apply wit_ok; cbn; lia). rewrite wit_stride. numR. lra. Qed.
 
-Lemma discr_one_refuted : exists q blas (axes : list (@axis R)),
+Lemma discr_one_refuted : exists q (axes : list (@axis R)),
   q_unweighted_skips q = true /\ Forall ax_ok axes /\ Forall ax_exact axes /\ axes <> [] /\
-  leaf_inner q (LDiscr blas axes LDefault (PFin 2)) (repeat 1 (npoints axes)) (repeat 1 (npoints axes))
+  leaf_inner q (LDiscr axes LDefault (PFin 2)) (repeat 1 (npoints axes)) (repeat 1 (npoints axes))
   <> Ok (extent_volume axes).
 Proof.
-  exists wit_quirks, true, [wit_axis]. split; [reflexivity|].
+  exists wit_quirks, [wit_axis]. split; [reflexivity|].
   split; [constructor; [apply wit_ok | constructor]|].
   split; [constructor; [apply wit_exact | constructor]|].
   split; [congruence|].
